@@ -248,3 +248,17 @@ func outputWellFormed(out string) bool {
 }
 
 func bi(x sdk.Int) *big.Int { return x.BigInt() }
+
+// timesStorable: every promotion instant lies in 0001-01-01T00:00:00Z .. 9999-12-31T23:59:59.999999999Z.
+func (p *OPricing) timesStorable() bool {
+	lo := time.Date(1, 1, 1, 0, 0, 0, 0, time.UTC)
+	hi := time.Date(10000, 1, 1, 0, 0, 0, 0, time.UTC)
+	for _, t := range p.ByTime {
+		for _, x := range []time.Time{t.Start, t.End} {
+			if x.Before(lo) || !x.Before(hi) {
+				return false
+			}
+		}
+	}
+	return true
+}
